@@ -60,7 +60,8 @@ CLAIMED.update({
 CLAIMED.update({
     "C04": dict(
         text=("Model-based exploration of the four endpoint facts: a scripted writer over random schemas (depth <= 3) follows a generated "
-              "write history with several writes per cycle, gaps, child-only writes and explicit invalidations; consumers are bound to the "
+              "write history with several writes per cycle, gaps, child-only writes, whole-value writes of partially populated bundle values "
+              "(incl. values that populate nothing) and explicit invalidations; consumers are bound to the "
               "whole output, to a child path and from inside a nested child; a metronome forces a cycle at every smallest step. After every "
               "cycle modified / valid / last-modified-time / value / per-tick delta are read at every node of the producer's tree and of "
               "every consumer's view and compared with the write history and with each other. Known findings F2 (invalidation) and F9 "
@@ -155,7 +156,8 @@ CLAIMED.update({
         ref="DESIGN.md §5 C14, §5a F4", note=NOTE_COMMON + " Fault points are sampled, not enumerated exhaustively; reduce combiner children are not in the generated shapes."),
     "C15": dict(
         text=("Differential exploration of captured errors: a program with throwing compute nodes under exception_time_series, a throwing "
-              "sub-graph under try_except, or a map_ whose children of chosen keys throw, is run with and without the faults; the run must "
+              "sub-graph under try_except, or a map_ whose children of chosen keys throw (the thrower optionally self-scheduling, throwing also in cycles fired by its "
+              "own alarm), is run with and without the faults; the run must "
               "complete, independent streams must be identical, error outputs must tick exactly in the throw cycles with the thrown "
               "message, the failing node must be evaluated again normally afterwards, and keyed errors must appear under the failing keys only."),
         technique="property-based testing: differential (with vs without faults) between engine runs",
